@@ -81,7 +81,8 @@ def main():
                 finally:
                     sh('git -C /repo checkout -- .')
             else:
-                env2 = dict(os.environ, RP_VERIF_SRC=wt + '/src')
+                # evidence of runs against a changed tree goes to a scratch directory
+                env2 = dict(os.environ, RP_VERIF_SRC=wt + '/src', RP_VERIF_EVIDENCE=wt + '.evidence')
                 rc, out = sh('./check %s --tier %s' % (c, a.tier), cwd=VERIF, env=env2)
             viol = [l for l in out.split('\n') if l.startswith('VIOLATION')]
             res['checks'][c] = {'rc': rc, 'violations': [v[:300] for v in viol[:6]],
@@ -107,6 +108,7 @@ def main():
     finally:
         sh('git -C /repo worktree remove --force %s' % wt)
         shutil.rmtree(wt, ignore_errors=True)
+        shutil.rmtree(wt + '.evidence', ignore_errors=True)
 
 
 if __name__ == '__main__':
